@@ -98,6 +98,7 @@ namespace Pistache::Tcp
 
             explicit BufferHolder(const FileBuffer& buffer, off_t offset = 0)
                 : _fd(buffer.fd())
+                , _fdOwner(makeFdOwner(buffer.fd()))
                 , size_(buffer.size())
                 , offset_(offset)
                 , type(File)
@@ -125,7 +126,7 @@ namespace Pistache::Tcp
             BufferHolder detach(size_t offset = 0)
             {
                 if (!isRaw())
-                    return BufferHolder(_fd, size_, offset);
+                    return BufferHolder(_fd, _fdOwner, size_, offset);
 
                 // Keep the whole buffer and remember how much of it was written:
                 // the write must be fulfilled with the full byte count
@@ -133,15 +134,28 @@ namespace Pistache::Tcp
             }
 
         private:
-            BufferHolder(Fd fd, size_t size, off_t offset = 0)
+            BufferHolder(Fd fd, std::shared_ptr<Fd> fdOwner, size_t size, off_t offset = 0)
                 : _fd(fd)
+                , _fdOwner(std::move(fdOwner))
                 , size_(size)
                 , offset_(offset)
                 , type(File)
             { }
 
+            // The file of a queued write is closed when the last holder that refers
+            // to it (the original or a detached one) goes away, whichever way the
+            // write leaves the queue: sent, failed, or dropped with its connection.
+            static std::shared_ptr<Fd> makeFdOwner(Fd fd)
+            {
+                return std::shared_ptr<Fd>(new Fd(fd), [](Fd* owned) {
+                    ::close(*owned);
+                    delete owned;
+                });
+            }
+
             RawBuffer _raw;
             Fd _fd;
+            std::shared_ptr<Fd> _fdOwner;
 
             size_t size_  = 0;
             off_t offset_ = 0;
